@@ -852,7 +852,7 @@ func (env *cenv) evalCall(t ECall) cval {
 			env.errf("gval needs a name string")
 		}
 		return cval{v: Val{e.ghost(env.cur, s.V, BV(64))}, T: types.Typ[types.Int64]}
-	case "nsent", "nrecv", "closed", "nclose", "period":
+	case "nsent", "nrecv", "nrecvc", "closed", "nclose", "period":
 		v := env.eval(t.Args[0])
 		ch := v.v[0]
 		switch name {
